@@ -40,7 +40,7 @@ def check_case(acc: Acc, case):
     idx, d, code, kind = case["idx"], case["delay"], case["code"], case["kind"]
     corrupt = case.get("corrupt", False)
     if code != 4 or idx > 0 or corrupt:
-        acc.nontrivial(transport, case["keep"], T, R, idx, d, code, kind, corrupt, case.get("pre", "drop"))
+        acc.nontrivial(transport, case["keep"], T, R, idx, d, code, kind, corrupt, case.get("pre", "drop"), repr(case.get("mbap")))
     pre = case.get("pre", "drop")
     if pre.startswith("lone") and kind != "read":
         pre = "drop"
@@ -49,6 +49,15 @@ def check_case(acc: Acc, case):
         frame = rw.rtu_exception_response(0xF7, {"read": 3, "write": 6, "write_multi": 16}[kind], code)
         frame = frame[:-1] + bytes((frame[-1] ^ 0x40,))
         script = script + [["raw", d, frame]]
+    elif case.get("mbap") is not None and transport == "tcp":
+        # GoodWe firmware is known to send inconsistent MBAP headers (e.g. it echoes the request's header, length 6, in front
+        # of a 3 byte exception PDU); the library documents that it ignores the MBAP length - exception frames included
+        fc = {"read": 3, "write": 6, "write_multi": 16}[kind]
+        frame = bytearray(rw.tcp_exception_response(0x0102, 0xF7, fc, code))
+        ln, proto = case["mbap"]
+        frame[4:6] = ln.to_bytes(2, "big")
+        frame[2:4] = proto.to_bytes(2, "big")
+        script = script + [["raw", d, bytes(frame)]]
     else:
         script = script + [["exc", d, code]]
     c = {"transport": transport, "keep": case["keep"], "T": T, "R": R, "script": script, "latency": case.get("latency", 0)}
@@ -98,6 +107,12 @@ def enum_job(job):
                 _apply(acc, case)
                 if code == 2 and idx and len(acc.samples) < 1:
                     acc.sample(case)
+    if transport == "tcp":   # inconsistent MBAP headers in front of the exception PDU
+        for mbap in ((6, 0), (0, 0), (0xFFFF, 0), (2, 0), (3, 1), (256, 0xFFFF)):
+            for code in (1, 2, 3, 6, 11, 200):
+                for idx in idxs:
+                    _apply(acc, {"transport": transport, "keep": keep, "kind": kind, "T": T, "R": R, "idx": idx, "delay": delays[0],
+                                 "code": code, "mbap": list(mbap)})
     for pre in PRE:   # earlier transmissions received something else than silence
         if pre == "drop" or (transport == "tcp" and pre in ("garbage", "bad")) or (kind != "read" and pre.startswith("lone")):
             continue      # fragments exist for read answers only      # (an invalid answer on Modbus/TCP ends the request at once - D9 - so nothing is retransmitted)
@@ -143,7 +158,8 @@ def hyp_job(job):
                 "kind": draw(st.sampled_from(("read", "write", "write_multi"))),
                 "T": draw(st.sampled_from((0.5, 1.0, 2.0, 4.0))), "R": R, "idx": draw(st.integers(0, R)),
                 "delay": draw(st.integers(0, 15)), "code": draw(st.integers(0, 255)), "latency": draw(st.integers(0, 3)),
-                "pre": draw(st.sampled_from(("drop", "drop", "lone-missing-7", "lone-missing-9", "lone-missing-5")))}
+                "pre": draw(st.sampled_from(("drop", "drop", "lone-missing-7", "lone-missing-9", "lone-missing-5"))),
+                "mbap": draw(st.one_of(st.none(), st.none(), st.tuples(st.integers(0, 0xFFFF), st.sampled_from((0, 0, 1, 0xFFFF))).map(list)))}
 
     def body(case):
         if len(acc.samples) < 3:
